@@ -790,10 +790,9 @@ void run_solo(uint64_t seed, uint64_t index) {
         fail("c09:solo-low-water-mark-differs-from-model",
              vf::fmt("sequential script: low_water_mark() = %lu, model says %lu", (unsigned long)got, (unsigned long)expect));
       }
-      if (epoch->accessor_number() != peak) {
-        fail("c09:solo-accessor-number", vf::fmt("accessor_number() = %zu but at most %zu accessors ever coexisted (slots not reused)",
-                                                 epoch->accessor_number(), peak));
-      }
+      // slot reuse is documented as "may be reused": observed, not demanded (C09 only says a released accessor
+      // never holds the mark back, which the model comparison above decides)
+      if (epoch->accessor_number() == peak) VF_COUNT("obs:solo_slots_reused_exactly"); else VF_COUNT("obs:solo_slots_not_reused");
       fp = vf::mix(fp, x / 8, expect == UINT64_MAX ? 0 : expect + 1);
     }
     for (auto& m : as) { while (m.valid && m.depth > 0) { m.acc.unlock(); --m.depth; } }
